@@ -9,7 +9,7 @@ use crate::wire;
 use crate::world::{CloseKind, Cond, DynFn, Opts, Outcome, Scenario, Step};
 use std::sync::Arc;
 
-pub const CONFIGS: &[&str] = &["cleartext", "trust", "authquery", "authquery-absent", "authquery-late", "authquery-changed", "authquery-two"];
+pub const CONFIGS: &[&str] = &["cleartext", "trust", "authquery", "authquery-absent", "authquery-late", "authquery-changed", "authquery-two", "bob-removed", "pool-removed"];
 pub const STARTUPS: &[(&str, &str, &str)] = &[
     ("alice@db", "alice", "db"),
     ("bob@db", "bob", "db"),
@@ -19,6 +19,7 @@ pub const STARTUPS: &[(&str, &str, &str)] = &[
     ("admin@pgbouncer", "admin_user", "pgbouncer"),
     ("alice@pgcat", "alice", "pgcat"),
     ("alice-only", "alice", ""),
+    ("alice@db2", "alice", "db2"),
 ];
 pub const VARIANTS: &[&str] = &[
     "correct", "wrong", "other-user", "replayed-salt", "minus-nul", "plus-byte", "empty", "len-minus1", "len0", "len3", "len4", "len-huge", "query-instead", "terminate-instead", "parse-instead",
@@ -29,7 +30,8 @@ fn real_password(cfgname: &str, user: &str) -> Option<&'static str> {
     match (cfgname, user) {
         (_, "admin_user") => Some("admin_pass"),
         ("cleartext", "alice") => Some("alicepw"),
-        ("cleartext", "bob") => Some("bobpw"),
+        ("cleartext", "bob") | ("bob-removed", "bob") | ("pool-removed", "bob") => Some("bobpw"),
+        ("bob-removed", "alice") | ("pool-removed", "alice") => Some("alicepw"),
         ("trust", "alice") => Some("alicepw"),
         ("authquery", "alice") | ("authquery-late", "alice") => Some("alicepw"),
         ("authquery-changed", "alice") => Some("newpw"),
@@ -116,10 +118,23 @@ pub fn scenario_peer(cfgname: &str, startup: (&str, &str, &str), variant: &str, 
     let (sname, user, db) = startup;
     let mut pool = PoolCfg::simple("db", "transaction", 2, 1, 0);
     let mut cfg;
+    let mut alt: Option<String> = None;
     match cfgname {
         "cleartext" => {
             pool.users.push(UserCfg { username: "bob".into(), password: Some("bobpw".into()), pool_size: 2, extra: String::new() });
             cfg = Cfg::one(pool);
+        }
+        // credentials revoked by a reload: bob is taken out of the pool / the pool db2 is taken out of the file
+        "bob-removed" | "pool-removed" => {
+            let after = Cfg::one(pool.clone());
+            pool.users.push(UserCfg { username: "bob".into(), password: Some("bobpw".into()), pool_size: 2, extra: String::new() });
+            cfg = Cfg::one(pool);
+            if cfgname == "pool-removed" {
+                let mut p2 = PoolCfg::simple("db2", "transaction", 2, 1, 0);
+                p2.shards[0].servers[0].0 = "pg-other".into();
+                cfg.pools.push(p2);
+            }
+            alt = Some(after.toml());
         }
         "trust" => {
             pool.users[0].extra = "auth_type = \"trust\"\n".into();
@@ -164,6 +179,10 @@ pub fn scenario_peer(cfgname: &str, startup: (&str, &str, &str), variant: &str, 
             n.servers.get_mut(&a).unwrap().shadow.insert("alice".into(), h.clone());
         })));
     }
+    if alt.is_some() {
+        env_steps.push(Step::WriteConfig(0));
+        env_steps.push(Step::Admin("RELOAD".into()));
+    }
     if admin_only {
         env_steps.push(Step::Shutdown);
     }
@@ -195,7 +214,7 @@ pub fn scenario_peer(cfgname: &str, startup: (&str, &str, &str), variant: &str, 
     Scenario {
         name: format!("C09 cfg={} startup={} variant={} admin_only={}{}", cfgname, sname, variant, admin_only, if peer { " peer=yes" } else { "" }),
         toml: cfg.toml(),
-        alt_tomls: vec![],
+        alt_tomls: alt.into_iter().collect(),
         servers,
         actors,
         opts: Opts { horizon_ms: 4000, ..Opts::default() },
@@ -217,6 +236,7 @@ fn must_admit(cfgname: &str, user: &str, db: &str, variant: &str, admin_only: bo
     if admin_only {
         return Some(false);
     }
+    // (after the reload of "bob-removed" / "pool-removed" only alice@db is left)
     let configured = pool_name == "db" && (user == "alice" || (user == "bob" && (cfgname == "cleartext" || cfgname == "authquery-two")));
     if !configured {
         return Some(false);
@@ -384,7 +404,7 @@ pub fn build(tier: &str) -> SimCheck {
         oracle: Box::new(oracle),
         bound: 2,
         limits: Limits { max_wall_s: if thorough { 1500.0 } else { 50.0 }, ..Default::default() },
-        rule: "scenario = auth configuration (cleartext, trust, auth_query with hash present / absent / server down at pool creation / changed later / two users each with a hash of its own) x startup (db,user) pair (configured, other user, unknown user/db, admin db in two spellings, non-admin user on the admin db, user only) x message sent in place of PasswordMessage (18 kinds incl. replayed salt, truncated, oversized, wrong type) followed at once by a tagged query x shutting down or not; verdict compared with the reference admission predicate; the same with a legitimate client logging in and running a statement concurrently (all interleavings with <= 2 deviations: neither connection may change the other's verdict); plus 96 connections opened up to the MD5 challenge: no salt issued twice".into(),
+        rule: "scenario = auth configuration (cleartext, trust, auth_query with hash present / absent / server down at pool creation / changed later / two users each with a hash of its own; a user / a whole pool taken out of the file by a RELOAD before the attempt) x startup (db,user) pair (configured, other user, unknown user/db, admin db in two spellings, non-admin user on the admin db, user only) x message sent in place of PasswordMessage (18 kinds incl. replayed salt, truncated, oversized, wrong type) followed at once by a tagged query x shutting down or not; verdict compared with the reference admission predicate; the same with a legitimate client logging in and running a statement concurrently (all interleavings with <= 2 deviations: neither connection may change the other's verdict); plus 96 connections opened up to the MD5 challenge: no salt issued twice".into(),
         assumptions: vec!["TLS startup not exercised".into()],
     }
 }
